@@ -32,6 +32,11 @@ type Verifier struct {
 	prop     string
 	immut    map[*ssa.Global]bool
 	sentMemo map[*ssa.Global]bool
+	// renamed locals (rename.go)
+	localsLock map[string][]localEnt
+	aliasMemo  map[*ssa.Function]map[string]string
+	rebound    []string
+	loopSigs   map[string][]localEnt
 }
 
 func (v *Verifier) nextEpoch() int { v.epoch++; return v.epoch }
@@ -117,7 +122,7 @@ func (v *Verifier) newExec(fn *ssa.Function, name string, ctr *FuncContract, mod
 	fx := &fnExec{v: v, fn: fn, name: name, ctr: ctr, mode: mode, declared: map[string]bool{}, vals: map[ssa.Value]SV{}, heapSorts: map[string]string{},
 		oblCount: map[string]int{}, sharedMut: map[ssa.Value]bool{}, strConsts: map[string]Term{}, fltConsts: map[string]Term{}, needs: map[string]bool{},
 		usedAxioms: map[string]bool{}, unspecCallees: map[string]bool{}, externUsed: map[string]bool{}, lemmasUsed: map[string]bool{}, contractsUsed: map[string]bool{}, ghostTypes: map[string]string{},
-		ranges: map[*ssa.Range]*rangeState{}, rangeNames: map[string]*rangeState{}, tablesUsed: map[string]bool{}, sliceTables: map[ssa.Value]*sliceTable{}, refHeaps: map[string]bool{}, macros: map[string]bool{}}
+		ranges: map[*ssa.Range]*rangeState{}, rangeNames: map[string]*rangeState{}, tablesUsed: map[string]bool{}, sliceTables: map[ssa.Value]*sliceTable{}, refHeaps: map[string]bool{}, macros: map[string]bool{}, inlinedHelpers: map[string]bool{}}
 	fx.overflowChecks = true
 	fx.caseIdx = -1
 	fx.safetyChecks = true
